@@ -32,6 +32,8 @@ type CaseResult struct {
 	Sets     map[string][]string `json:"sets,omitempty"`   // set-valued observations, unioned
 	Sample   interface{}         `json:"sample,omitempty"` // written-out case (kept for a few cases)
 	Evals    int64               `json:"evals,omitempty"`  // executions run by this case (default 1)
+
+	shapeSet map[uint64]struct{}
 }
 
 func (r *CaseResult) Count(name string, n int64) {
@@ -66,7 +68,15 @@ func (r *CaseResult) Set(name, val string) {
 func (r *CaseResult) Shape(parts ...interface{}) {
 	h := fnv.New64a()
 	fmt.Fprint(h, parts...)
-	r.Shapes = append(r.Shapes, h.Sum64())
+	v := h.Sum64()
+	if r.shapeSet == nil {
+		r.shapeSet = map[uint64]struct{}{}
+	}
+	if _, dup := r.shapeSet[v]; dup {
+		return
+	}
+	r.shapeSet[v] = struct{}{}
+	r.Shapes = append(r.Shapes, v)
 }
 
 func (r *CaseResult) Fail(key, msg string, detail ...string) {
